@@ -11,6 +11,23 @@ Proof. unfold dial_policy. intros ->. reflexivity. Qed.
 Lemma dial_policy_some opts p : dial_policy opts = Some p -> p = no_retry.
 Proof. unfold dial_policy. destruct (forallb neutral_opt opts); [intros H; injection H as <-; reflexivity|discriminate]. Qed.
 
+Lemma conn_authority_spec configured addr :
+  (configured = [] -> conn_authority configured addr = addr) /\
+  (configured <> [] -> conn_authority configured addr = configured).
+Proof.
+  destruct configured as [|c r]; split; intros H; cbn [conn_authority]; try reflexivity.
+  - exfalso; apply H; reflexivity.
+  - discriminate H.
+Qed.
+
+Lemma run_authorities_configured configured t r any a :
+  configured <> [] -> In a (run_authorities configured t r any) -> a = configured.
+Proof.
+  intros Hc. unfold run_authorities. destruct (conn_authority_spec configured r) as [_ Hr].
+  destruct (conn_authority_spec configured t) as [_ Ht]. rewrite (Hr Hc).
+  destruct any; cbn [In]; [rewrite (Ht Hc)|]; intuition congruence.
+Qed.
+
 Section WireProofs.
   Variable msg : Type.
   Variable code_of_status : N -> N.
